@@ -737,7 +737,7 @@ class ItemList:
         if self._numbers is not None:
             state["numbers"] = self._numbers.numpy()
         elif self._vocab is not None:
-            state["numbers"] = self.numbers()
+            state["numbers"] = self.numbers(missing="negative")
 
         state.update(("field_" + k, v.numpy()) for (k, v) in self._fields.items())
         return state
